@@ -111,6 +111,7 @@ type hrCase struct {
 	Epoch    uint64 `json:"epoch"`
 	Fault    string `json:"fault"` // none | no-new-server | second-call | stale-event | kill-one-session
 	Workers  int    `json:"workers"`
+	Chain    bool   `json:"chain,omitempty"` // after a complete hand-over, the new server hands over once more (A -> B -> C)
 }
 
 func genHrCase(t *rapid.T) hrCase {
@@ -121,6 +122,7 @@ func genHrCase(t *rapid.T) hrCase {
 	if c.Fault == "no-new-server" {
 		c.DeltaMs = 100000
 	}
+	c.Chain = rapid.IntRange(0, 2).Draw(t, "chain") == 0
 	return c
 }
 
@@ -269,6 +271,48 @@ func hrRun(c hrCase, r *runCtx) {
 	tClose := time.Now()
 	old.ln.Close()
 	oldClosed = true
+	if c.Chain && faultFree && c.DeltaMs < 0 {
+		// second hand-over: B -> C, with a new epoch
+		r.Label("chained-restart")
+		time.Sleep(20 * time.Millisecond)
+		third := newEchoServerAt(path, false)
+		defer third.ln.Close()
+		time.Sleep(5 * time.Millisecond)
+		epoch2 := c.Epoch + 1000
+		if err := newer.ln.HotRestart(epoch2); err != nil {
+			r.Violf("second hand-over: HotRestart(%d) on the server that took over returned %v", epoch2, err)
+			return
+		}
+		if !waitUntil(2*time.Second+1500*time.Millisecond, func() bool {
+			sm.RLock()
+			st := sm.state
+			sm.RUnlock()
+			return newer.ln.IsHotRestartDone() && st != hotRestartState
+		}) {
+			r.Violf("second hand-over (epoch %d): listener done=%v, the session manager is still in the hot-restart state after 3.5 s", epoch2, newer.ln.IsHotRestartDone())
+			return
+		}
+		newer.ln.mu.Lock()
+		lst := newer.ln.state
+		newer.ln.mu.Unlock()
+		if lst != hotRestartDoneState {
+			r.Violf("second hand-over (epoch %d): the listener left the restart through its time-out (state %d), the client sessions never acknowledged", epoch2, lst)
+			return
+		}
+		for i, e := range poolEpochs(sm) {
+			if e != epoch2 {
+				r.Violf("second hand-over: pool %d is on a session of epoch %d, announced epoch %d", i, e, epoch2)
+				return
+			}
+		}
+		waitUntil(2*time.Second, func() bool { open, _ := third.sessionCount(); return open == c.Sessions })
+		if open, _ := third.sessionCount(); open != c.Sessions {
+			r.Violf("second hand-over: the third server holds %d open sessions, the client has %d pools", open, c.Sessions)
+			return
+		}
+		newer.ln.Close()
+		newer = nil
+	}
 	time.Sleep(150 * time.Millisecond)
 	tAfter := time.Now()
 	time.Sleep(100 * time.Millisecond)
@@ -359,7 +403,11 @@ func genHealCase(t *rapid.T) healCase {
 		RebuildMs: rapid.SampledFrom([]int{20, 50, 120}).Draw(t, "rebuild"), CloseEarly: rapid.IntRange(0, 3).Draw(t, "closeearly") == 0}
 	n := rapid.IntRange(1, 3).Draw(t, "nsteps")
 	for i := 0; i < n; i++ {
-		if rapid.IntRange(0, 2).Draw(t, "kind") == 0 {
+		k := rapid.IntRange(0, 4).Draw(t, "kind")
+		if k == 4 && c.Pools >= 2 {
+			// a session is lost and, before its pool is rebuilt, the server announces a hot restart in which the other pools take part
+			c.Steps = append(c.Steps, healStep{K: "kill-then-hotrestart", I: rapid.IntRange(0, c.Pools-1).Draw(t, "i")})
+		} else if k == 0 {
 			c.Steps = append(c.Steps, healStep{K: "restart-listener", DownMs: rapid.SampledFrom([]int{0, 30, 150}).Draw(t, "down")})
 		} else {
 			c.Steps = append(c.Steps, healStep{K: "kill-session", I: rapid.IntRange(0, c.Pools-1).Draw(t, "i")})
@@ -435,6 +483,7 @@ func healRun(c healCase, r *runCtx) {
 	}
 	losses := 0
 	serverGen := 1
+	hrEpoch := uint64(40)
 	totalAccepted := countAccepted(es)
 	for si, st := range c.Steps {
 		switch st.K {
@@ -455,6 +504,41 @@ func healRun(c healCase, r *runCtx) {
 			victim.Close()
 			losses++
 			r.Label("server-session-killed")
+		case "kill-then-hotrestart":
+			cs := sm.pools[st.I].Session()
+			var victim *Session
+			es.ln.sessions.sessionMu.Lock()
+			for s := range es.ln.sessions.data {
+				if s.sessionName() == cs.sessionName() {
+					victim = s
+				}
+			}
+			es.ln.sessions.sessionMu.Unlock()
+			if victim == nil {
+				continue
+			}
+			// the old server must know all sessions before it announces anything
+			waitUntil(2*time.Second, func() bool { open, _ := es.sessionCount(); return open == c.Pools })
+			victim.Close()
+			waitUntil(time.Second, cs.IsClosed)
+			losses++
+			es.ln.SetUnlinkOnClose(false)
+			es2 := newEchoServerAt(path, true)
+			time.Sleep(2 * time.Millisecond)
+			hrEpoch++
+			if err := es.ln.HotRestart(hrEpoch); err != nil {
+				r.Label("hotrestart-refused:" + err.Error())
+			}
+			waitUntil(3500*time.Millisecond, func() bool {
+				sm.RLock()
+				stt := sm.state
+				sm.RUnlock()
+				return es.ln.IsHotRestartDone() && stt != hotRestartState
+			})
+			es.ln.Close()
+			*es = *es2
+			serverGen++
+			r.Label("session-lost-then-hot-restart")
 		case "restart-listener":
 			before := countAccepted(es)
 			totalAccepted += before - totalAcceptedBase(serverGen, before)
@@ -480,6 +564,9 @@ func healRun(c healCase, r *runCtx) {
 		}
 		// healed within the rebuild interval + slack, then a round trip works again
 		deadline := time.Duration(c.RebuildMs)*time.Millisecond + 2*time.Second
+		if st.K == "kill-then-hotrestart" {
+			deadline += 3 * time.Second // the watcher pauses while the manager is in the hot-restart state (500 ms polls)
+		}
 		if !waitUntil(deadline, func() bool { return allPoolsOK() == "" }) {
 			r.Violf("step %d (%s): %v after the loss the manager has not healed: %s", si, st.K, deadline, allPoolsOK())
 			return
@@ -500,6 +587,9 @@ func healRun(c healCase, r *runCtx) {
 	} else {
 		// nothing was lost twice: the server saw exactly one replacement per loss (current generation only)
 		time.Sleep(time.Duration(c.RebuildMs)*time.Millisecond + 50*time.Millisecond)
+		// (the server registers a replacement session a moment after the client's handshake returned)
+		waitUntil(2*time.Second, func() bool { open, _ := es.sessionCount(); return open == c.Pools })
+		time.Sleep(time.Duration(c.RebuildMs)*time.Millisecond + 20*time.Millisecond)
 		open, _ := es.sessionCount()
 		if open != c.Pools {
 			r.Violf("after healing the server holds %d open sessions for %d pools (a pool was rebuilt twice, or not at all)", open, c.Pools)
